@@ -179,6 +179,12 @@ func xrename(src, dst string) xop {
 			vlib.Excluded("C20-overwrite-linked-name-deletes-shared-chunks")
 			return stepResult{}, false
 		}
+		if isLinked(n) && isLinked(tgt) && string(n.Found.HardLinkId) != string(tgt.Found.HardLinkId) {
+			s.classes["rename-linked-onto-other-identity"] = true
+			if s.linkGroup(n) >= 2 && s.linkGroup(tgt) >= 2 {
+				s.classes["rename-across-two-multiname-identities"] = true
+			}
+		}
 		od, on := fdrv.SplitPath(s.root + src)
 		nd, nn := fdrv.SplitPath(s.root + dst)
 		err := s.e.Rename(od, on, nd, nn)
@@ -193,8 +199,32 @@ func xrename(src, dst string) xop {
 	}}
 }
 
+// xsetup2 builds, on an empty tree and as one step, two link identities with
+// two names each: X={/a,/b}, Y={/x/c,/x/d}.
+func xsetup2() xop {
+	return xop{"setup X={/a,/b} Y={/x/c,/x/d}", func(s *sim) (stepResult, bool) {
+		if len(s.nodes) != 0 {
+			return stepResult{}, false
+		}
+		var log []string
+		for _, pr := range [][2]string{{"/a", "/b"}, {"/x/c", "/x/d"}} {
+			s.clock++
+			c := s.e.DataChunk(0, 10, s.clock)
+			dir, name := fdrv.SplitPath(s.root + pr[0])
+			err := s.e.Create(dir, &filer_pb.Entry{Name: name, Attributes: attrs(s.clock, 10), Chunks: []*filer_pb.FileChunk{c}}, false)
+			s.nLinkIds++
+			err2 := s.e.Link(s.root+pr[0], s.root+pr[1], fdrv.NewLinkId(s.seq, byte('A'+s.nLinkIds)))
+			log = append(log, fmt.Sprintf("put %s [%s] -> %s, link %s %s -> %s", pr[0], s.e.FmtChunks([]*filer_pb.FileChunk{c}), errStr(err), pr[0], pr[1], errStr(err2)))
+		}
+		s.classes["link"] = true
+		s.classes["two-identities-prologue"] = true
+		return stepResult{desc: "setup: " + strings.Join(log, ", "), requestsData: true}, true
+	}}
+}
+
 var alphabet = []xop{
-	xput("/a"), xput("/b"), xput("/x/c"),
+	xsetup2(), xrename("/a", "/x/c"),
+	xput("/a"), xput("/b"),
 	xlink("/a", "/b"), xlink("/b", "/a"), xlink("/a", "/x/c"),
 	xupdate("/a", "keep+add", "create"), xupdate("/a", "replace", "update"), xupdate("/b", "replace", "create"), xupdate("/a", "wrap", "create"), xupdate("/a", "wrap", "update"),
 	xdelete("/a", "data"), xdelete("/b", "data"), xdelete("/a", "nodata"), xdelete("/a", "mount"), xdelete("/b", "mount"), xdelete("/x", "rdata"), xdelete("/x", "rnodata"), xdelete("/x/c", "mount"),
